@@ -27,6 +27,10 @@ import pyairtouch.comms.socket as psock  # noqa: E402
 DOM_SEL = {4: 22, 5: 32}
 
 
+def short_repr(m) -> str:
+    return repr(m)[:260]
+
+
 def short(m, n=260) -> str:
     return repr(m)[:n]
 
@@ -85,6 +89,31 @@ class Loopback:
         rig.feed([frame + tail])
         hdrs, msgs, reset, unh = rig.take()
         return frame, list(zip(hdrs, msgs)), ("reset" if reset else None)
+
+    def batch_roundtrip(self, ms):
+        """The messages are accepted while the link is down (each sized at that time) and written when it is back.
+        -> (bytes written, deliveries [(hdr tuple, msg)], reset?)"""
+        rig = self.rig
+        if not rig.connect():
+            raise RuntimeError("loopback rig did not connect")
+        rig.net.accept = False
+        rig.net.current().transport.peer_reset()
+        rig.loop.settle()
+        rig.take()
+        tasks = [rig.loop.create_task(rig.sock.send(m, psock.RETRY_IDEMPOTENT)) for m in ms]
+        rig.loop.settle()
+        errs = [type(t.exception()).__name__ for t in tasks if t.done() and t.exception() is not None]
+        rig.net.accept = True
+        if not rig.connect():
+            raise RuntimeError("loopback rig did not reconnect")
+        rig.loop.settle()
+        conn = rig.net.current()
+        data = bytes(conn.out)
+        rig.net.take_events()
+        rig.delivered = []
+        rig.feed([data])
+        hdrs, msgs, reset, unh = rig.take()
+        return data, list(zip(hdrs, msgs)), ("reset" if reset else None), errs
 
     def close(self):
         self.rig.close()
@@ -281,6 +310,33 @@ def check_c03(tier: str) -> int:
                                       "failure": f"send number {i + 1} of a run through one registry: " + bad})
                         break
                     last = pid
+            # messages accepted while the link is down are sized at once and encoded later, one after another, by the
+            # shared encoder objects: each frame must still be its own message's
+            pool = [m for (k, m), (_, r, fl, _), dm in zip(msgs, enc, doms) if fl is not None and dm[:2] == [1, 1] and r[0] == "ok" and len(r[2]) < 120]
+            for i in range(60 if tier == "quick" else 1500):
+                if len(pool) < 4:
+                    break
+                batch = [rng.choice(pool) for _ in range(rng.choice([2, 3, 4]))]
+                ck.count()
+                dist[f"at{gen}_queued_batches"] += 1
+                data, ds, err, errs = lb.batch_roundtrip(batch)
+                bad = None
+                if errs:
+                    bad = f"send raised {errs}"
+                elif err:
+                    bad = "the receive path rejected what the send path wrote (connection reset)"
+                elif len(ds) != len(batch):
+                    bad = f"{len(ds)} deliveries for {len(batch)} messages"
+                else:
+                    for j, (((to, frm, pid, mid, ln), got), m) in enumerate(zip(ds, batch)):
+                        if mid != m.message_id or not msg_equal(got, m):
+                            bad = f"message {j} delivered as {short_repr(got)}"
+                            break
+                if bad:
+                    ck.violation("round trip fails on the implementation",
+                                 {"kind": "roundtrip-queued-batch", "gen": gen, "messages": [repr(m)[:300] for m in batch],
+                                  "written": data.hex()[:600], "failure": "accepted while the link was down, written after the reconnection: " + bad})
+                    break
         finally:
             lb.close()
     float_tie(ck, dist)
